@@ -76,7 +76,8 @@ def build(ctx):
            q.short(used_mid, 160) if used_mid is not None else "")
     rc = rec_calls(tr, site)
     ctx.anchor(site, "two recursive calls", len(rc) == 2, "found %d" % len(rc))
-    leafnew = [e for e in tr.calls() if e.callee == ("new", NODE) and len(e.stack) == 1]
+    # node constructions of this call of build (in build itself or in a helper it calls, not in the recursive calls)
+    leafnew = [e for e in tr.calls() if e.callee == ("new", NODE) and sum(1 for f in e.stack if f.name == "build") == 1]
     if len(rc) != 2:
         return
     masks = []
@@ -124,13 +125,21 @@ def build(ctx):
         ctx.ob("GRD-stop", site, "no node holding count_ubound points or fewer (or too few distinct values / too small a cell) is split", ok,
                "guards: %s" % "; ".join(q.short(g, 80) for g in guards(e)[-4:]), e)
     leaf = [e for e in leafnew if e not in inner]
-    ctx.anchor(site, "leaf constructed", len(leaf) == 1, "")
+    ctx.anchor(site, "leaf constructed", len(leaf) >= 1, "")
+    if len(leaf) > 1:
+        # several guard clauses each ending in a leaf: together they must cover exactly the stop rule
+        ctxg = [g for g in guards(leaf[0]) if all(any(g == h for h in guards(e2)) for e2 in leaf[1:] + inner)]   # holds on every path that builds a node
+        okc = _cases_cover(ctx, site, [[g for g in guards(e) if not any(g == h for h in ctxg)] for e in leaf], q.disjuncts(stop))
+        if okc is not None:
+            ctx.ob("GRD-stop", site, "a leaf is created exactly under the stop rule", okc, "the guard clauses that end in a leaf do not add up to the stop rule", leaf[0])
     for e in leaf:
-        ok = any(q.pred_equiv(g, stop) for g in guards(e))
-        ctx.ob("GRD-stop", site, "a leaf is created exactly under the stop rule", ok, "", e)
+        if len(leaf) == 1:
+            ok = any(q.pred_equiv(g, stop) for g in guards(e))
+            ctx.ob("GRD-stop", site, "a leaf is created exactly under the stop rule", ok, "", e)
         ctx.ob("FRM", site, "leaf count = number of points, no split description", q.sub(e.args[0], const("build")) == n and tuple(e.args[1:]) == (T.NONE,) * 4, "", e)
-        ap = [x for x in tr.of("localmut") if x.name == "leaves" and x.how == "method:append" and len(x.stack) == 1]
-        ctx.ob("MC", site, "every leaf is appended to the leaves list exactly once", len(ap) == 1 and ap[0].pc == e.pc and ap[0].value.single_atom()[1][0] == e.result, "", e)
+        ap = [x for x in tr.of("localmut") if x.name == "leaves" and x.how == "method:append" and (len(x.stack) == 1 or len(leaf) > 1)]
+        mine = [x for x in ap if x.value.single_atom()[1][0] == e.result and [p_.cond for p_ in x.pc] == [p_.cond for p_ in e.pc]]
+        ctx.ob("MC", site, "every leaf is appended to the leaves list exactly once", len(mine) == 1 and len(ap) == len(leaf), "", e)
 
 
 def fill(ctx):
@@ -544,3 +553,49 @@ def plotly(ctx):
                 ok = ok and not given
         ok = ok and seen == {"present", "absent"}
         ctx.ob("GRD", site2, "the count difference is reported exactly when a second id is given, from that id's count when present", ok, q.short(cd, 160), ap2[0])
+
+
+def _cases_cover(ctx, site, cases, disj):
+    """Do the guard sets `cases` (one per exit) add up to d1 or d2 or ...?  Each guard is read as a boolean function of the
+    disjuncts (a disjunct, its negation, or an and / or of those); guards that mention nothing of the rule are ignored;
+    a guard that mentions the rule but cannot be read makes the idiom unrecognised (anchor, returns None)."""
+    import itertools as _it
+    mention = set()
+    for d in disj:
+        mention |= {a for a in T.walk(d) if a[0] not in ("const", "cmp")}
+
+    def read(g):
+        for i, d in enumerate(disj):
+            if q.pred_equiv(g, d):
+                return lambda v, i=i: v[i]
+            if q.pred_equiv(g, T.mk_not(d)):
+                return lambda v, i=i: not v[i]
+        a = g.single_atom()
+        if a is not None and a[0] in ("and", "or"):
+            subs = [read(x) for x in a[1]]
+            if any(s is None for s in subs):
+                return None
+            return (lambda v: all(s(v) for s in subs)) if a[0] == "and" else (lambda v: any(s(v) for s in subs))
+        if a is not None and a[0] == "not":
+            s = read(a[1])
+            return None if s is None else (lambda v: not s(v))
+        return None
+    fns = []
+    for gs in cases:
+        fs = []
+        for g in gs:
+            f = read(g)
+            if f is None:
+                cg = q.is_cmp(g)
+                if cg is not None and any(q.is_cmp(d) is not None and (q.is_cmp(d)[2] == cg[2] or q.is_cmp(d)[2] == -cg[2]) for d in disj):
+                    return False   # a test on the very quantity of a stop test, with another relation: not the stop rule
+                if any(T.mentions(g, lambda z: z in mention) for _ in (0,)):
+                    ctx.anchor(site, "the guards of a leaf exit are the stop tests or their negations", False, q.short(g, 80))
+                    return None
+                continue
+            fs.append(f)
+        fns.append(fs)
+    for v in _it.product((False, True), repeat=len(disj)):
+        if any(all(f(v) for f in fs) for fs in fns) != any(v):
+            return False
+    return True
